@@ -294,7 +294,7 @@ async def handshake_oracle(sim):
         n = 0
         for side in 'cs':
             while sim.pending(side):
-                sim.wire.deliver(side, 1)
+                sim._deliver(side)          # (keeps the harness's channel bookkeeping in step)
                 n += 1
         await memwire.settle(simmod.SETTLE_TURNS)
         if not n:
